@@ -94,6 +94,83 @@ theorem getLanguageForName_cases (m : List Char) :
           · exact Or.inr rfl
       · exact Or.inr rfl
 
+theorem firstName_sound (ns : List (List Char)) (l : Language) (h : firstName ns = some (.ok l)) :
+    ∃ n ∈ ns, ∃ c, nameCode (strip n) = some c ∧ parseLanguage c = some l := by
+  induction ns with
+  | nil => simp [firstName] at h
+  | cons n t ih =>
+    simp only [firstName] at h
+    split at h
+    · rename_i r hr
+      cases h
+      unfold tryName at hr
+      split at hr
+      · cases hr
+      · rename_i c hc
+        simp only [Option.some.injEq] at hr
+        unfold parseLanguageE at hr
+        split at hr
+        · rename_i l' hl'
+          cases hr
+          exact ⟨n, by simp, c, hc, hl'⟩
+        · cases hr
+    · obtain ⟨n', hn', c, hc⟩ := ih h
+      exact ⟨n', by simp [hn'], c, hc⟩
+
+/-- the language a name identifies always comes from the name table: for the whole (munched) name, a `;`-separated
+    alternative, `B, A` read as `A B`, or a `,`-separated part -/
+theorem getLanguageForName_sound (m : List Char) (l : Language) (h : getLanguageForName m = .ok l) :
+    ∃ n c, nameCode n = some c ∧ parseLanguage c = some l ∧
+      (n = m ∨ (∃ x ∈ splitOn ';' m, n = strip x)
+        ∨ n = strip ((m.dropWhile (· ≠ ',')).drop 1) ++ ' ' :: strip (m.takeWhile (· ≠ ','))
+        ∨ (∃ x ∈ splitOn ',' m, n = strip x)) := by
+  have pe : ∀ c l, parseLanguageE c = .ok l → parseLanguage c = some l := by
+    intro c l hc
+    unfold parseLanguageE at hc
+    split at hc
+    · cases hc; assumption
+    · cases hc
+  unfold getLanguageForName at h
+  split at h
+  · rename_i r hr
+    unfold tryName at hr
+    split at hr
+    · cases hr
+    · rename_i c hc
+      cases hr
+      exact ⟨m, c, hc, pe _ _ h, Or.inl rfl⟩
+  · split at h
+    · rename_i r hr
+      split at hr
+      · subst h
+        obtain ⟨n, hn, c, hc, hl⟩ := firstName_sound _ _ hr
+        exact ⟨strip n, c, hc, hl, Or.inr (Or.inl ⟨n, hn, rfl⟩)⟩
+      · cases hr
+    · split at h
+      · simp only at h
+        split at h
+        · rename_i r hr
+          unfold tryName at hr
+          split at hr
+          · cases hr
+          · rename_i c hc
+            cases hr
+            exact ⟨_, c, hc, pe _ _ h, Or.inr (Or.inr (Or.inl rfl))⟩
+        · split at h
+          · rename_i c hc
+            have hmem : c ∈ ((splitOn ',' m).filterMap (fun n => nameCode (strip n))).eraseDups := by rw [hc]; simp
+            rw [List.mem_eraseDups, List.mem_filterMap] at hmem
+            obtain ⟨n, hn, hnc⟩ := hmem
+            exact ⟨strip n, c, hnc, pe _ _ h, Or.inr (Or.inr (Or.inr ⟨n, hn, rfl⟩))⟩
+          · cases h
+      · cases h
+
+/-- a name of the table is identified as its locale -/
+theorem getLanguageForName_whole (m c : List Char) (h : nameCode m = some c) :
+    getLanguageForName m = parseLanguageE c := by
+  unfold getLanguageForName tryName
+  simp [h]
+
 theorem named_eq (munch : List Char → List Char) (v : List Char) :
     getLanguageForName (munch v) = (match named munch v with | some l => .ok l | none => .error .lookupError) := by
   unfold named
